@@ -1,6 +1,7 @@
 package main
 
 import (
+	"verif/props/c01"
 	"verif/props/c03"
 	"verif/props/c04"
 	"verif/props/c06"
@@ -12,6 +13,7 @@ import (
 )
 
 func init() {
+	props["C01"] = prop{c01.Run, c01.Replay}
 	props["C03"] = prop{c03.Run, c03.Replay}
 	props["C04"] = prop{c04.Run, c04.Replay}
 	props["C06"] = prop{c06.Run, c06.Replay}
